@@ -16,8 +16,7 @@ SPEC = {
             "timeout; EVERY returned tree is judged by R1 (closed by own walk, valid derivation, chart membership of its "
             "string) and R2 (satisfies the reference AST the text was printed from). distinct = distinct (family, grammar, "
             "settings, solution string)",
-    "minimum": {"quick": {"trees_judged": 300, "solvers_with_solutions": 60, "families_with_solutions": 10, "fam:defuse-mexpr": 2, "fam:count-literal": 2,
-                          "fam:int-range": 2, "fam:exists-mexpr-eq": 2},
+    "minimum": {"quick": {"trees_judged": 300, "solvers_with_solutions": 60, "families_with_solutions": 12},
                 "thorough": {"trees_judged": 8000, "solvers_with_solutions": 1200, "families_with_solutions": 22}},
     "assumptions": ["R1/R2 reference models; R2 abstentions (ambiguous match, Z3 undecided) are inconclusive",
                     "solutions are judged against the constraint as given, not against solver-internal states",
@@ -141,9 +140,12 @@ def run(ctx):
     rng = ctx.rng
     ctx.fams = set()
     ntrees = 12 if ctx.tier == "quick" else 40
+    i = ctx.shard * 5
     while ctx.running():
         fams = SC.families(rng)
-        fam, gname, f = rng.choice(fams) if rng.random() < 0.85 else SC.random_family(rng)
+        i += 1
+        # documented families in rotation (every shard starts elsewhere), so that a short run still visits all of them
+        fam, gname, f = fams[i % len(fams)] if rng.random() < 0.85 else SC.random_family(rng)
         run_solver(ctx, fam, gname, f, SC.settings(rng), rng.randrange(10 ** 6), ntrees, 25)
 
 
